@@ -1,5 +1,5 @@
 """C01 — class reader fidelity: constants, decode tables, pass agreement, coverage, attribute dispatch, flag and tag tables."""
-import re
+import re, os
 
 from lib import hir as H
 from lib import tables as T
@@ -247,6 +247,15 @@ def r01_5(duke, R, S):
                     else:
                         entry_variants.append(T.show(a)[:40])
                 want_v = variant_of.get(name, name)
+                if name in ("Integer", "Float", "Long", "Double"):
+                    # the numeric payload is the big-endian value itself: one read of the full width (JVMS 4.4.4/4.4.5: high_bytes and
+                    # low_bytes are the two halves of one big-endian 8-byte value).  A value assembled from several narrower reads is not
+                    # evaluated here (the evaluator does not model the signedness of `as` casts): reported, fail closed (seed C01-12:
+                    # `(high as i64) << 32 | low as i64` with a sign-extended low half)
+                    full = 8 if name in ("Long", "Double") else 4
+                    R.inst("R01.5", "pool-value:%s" % name, len(reads) == 1 and reads[0][0] == full, sp=arm["sp"],
+                           expect="one %d-byte read stored as the entry's payload" % full, got=[r[2] for r in reads],
+                           detail="the constant delivered to the visitor is the constant stored in the file")
                 R.inst("R01.5", "pool-variant:%s" % name, entry_variants == [want_v], sp=arm["sp"], expect=want_v, got=entry_variants)
                 want_bytes = sum(width[x] for x in S["pool_layout"][name] if x in width)
                 got_bytes = sum(r[0] for r in reads if isinstance(r[0], int))
